@@ -31,5 +31,5 @@ for p in "$@"; do
   echo "check $p exit=$code $rule"
   res="$res $p:$code"
 done
-git -C "$REPO" checkout -- .
+git -C "$REPO" checkout -- . ; git -C "$REPO" clean -fdq src
 echo "RESULT $id $res"
